@@ -44,6 +44,8 @@ func checkC02(p *Program, r *Result) {
 	checkInfoRestoresPosition(p, r, "C02.p")
 	r.rule("C02.n", "a chunk index without message indexes is never dropped by the channel filter", 0)
 	checkKeepWithoutMessageIndexes(p, r, "C02.n")
+	r.rule("C02.s", "the chunk cursor only moves past a chunk that was loaded", 0)
+	checkCursorAdvancesAfterLoad(p, r, "C02.s")
 	r.rule("C02.m", "the shared lexer is in the mode of the iterator that Messages returns", 2)
 	checkLexerMode(p, r)
 	r.rule("C02.g", "the yielded record is the one designated by the queue entry at the cursor", 0)
